@@ -429,7 +429,8 @@ C18Mix(o, k, b) ==
                   a \in DOMAIN comp.scaledValues /\
                   LET v == ValOfAlt(before, a, comp.id)
                       num == IF ty = "cost" THEN rg.max - v ELSE v - rg.min
-                  IN IF diff = 0 THEN Near(comp.scaledValues[a], 0, Slack)
+                  IN IF ~ExactBefore(o, k) /\ NAbs(diff) <= 2 * Slack THEN TRUE      \* range below the resolution of the recorded integers
+                     ELSE IF diff = 0 THEN Near(comp.scaledValues[a], 0, Slack)
                      (* comp = num * T / diff, compared cross-multiplied; every operand carries a rounding error of one unit *)
                      ELSE Near(comp.scaledValues[a] * diff, num * T, 2 * (NAbs(diff) + NAbs(comp.scaledValues[a]) + T) + 4)
            targetOf(c) == LET rg == RangeOf(before, c) IN NMax(NMax(NAbs(rg.min), NAbs(rg.max)), rg.max - rg.min)
@@ -527,7 +528,11 @@ C19Event(o, k, b) ==
                    ELSE LET tol == Slack * NAbs(den) + 2 * NAbs(PGet(FunParams(fd), "a", 0)) + 2 * NAbs(got) + 2 * NAbs(PGet(FunParams(fd), "b", 0)) + u IN
                         IF better THEN Near(got * den, LinVal2(FunParams(fd), num, den, u), tol)
                         ELSE Near(got * den, 0 - LinVal2(FunParams(fd), 0 - num, den, u), tol)
-             IN branchOK(isBetter) \/ (~ExactBefore(o, k) /\ NAbs(num) <= Slack /\ den # 0 /\ branchOK(~isBetter))
+             IN \/ branchOK(isBetter)
+                \/ (~ExactBefore(o, k) /\ NAbs(num) <= Slack /\ den # 0 /\ branchOK(~isBetter))
+                (* after real-valued biases a criterion's range may lie below the resolution of the recorded integers (all *)
+                (* values project to the same number although they differ): its scaled differences are not recoverable    *)
+                \/ (~ExactBefore(o, k) /\ NAbs(den) <= 2 * Slack)
            (* the property's domain: anchoring alternatives with positive coefficients *)
            coefDomain == \A i \in DOMAIN aa : Has(aa[i], "coefficient") /\ aa[i].coefficient > 0
            refOK == /\ rp.id = strat /\ DOMAIN rp.criteria = C
@@ -535,7 +540,7 @@ C19Event(o, k, b) ==
            scalingOK == /\ DOMAIN rep.criteriaScaling = C
                         /\ \A c \in C : LET rg == RangeOf(before, c) sc == rep.criteriaScaling[c] IN
                               /\ sc.valuesRange.min = rg.min /\ sc.valuesRange.max = rg.max
-                              /\ (IF rg.max = rg.min THEN sc.scale = 0 ELSE Near(sc.scale * (rg.max - rg.min), u * u, 2 * NAbs(sc.scale) + NAbs(rg.max - rg.min) + u))
+                              /\ (IF rg.max = rg.min THEN (sc.scale = 0 \/ ~ExactBefore(o, k)) ELSE Near(sc.scale * (rg.max - rg.min), u * u, 2 * NAbs(sc.scale) + NAbs(rg.max - rg.min) + u))
            (* inline applier *)
            applied == rep.applierResult.appliedDifferences
            appliedOf(a) == applied[CHOOSE i \in DOMAIN applied : applied[i].id = a].criteria
